@@ -30,9 +30,9 @@ def budget(tier):
 @st.composite
 def _op(draw):
     k = draw(st.sampled_from(["train", "eval", "eval", "cache_on", "cache_on", "cache_off", "forward", "forward", "forward", "inverse",
-                              "inverse", "sgd", "load", "double", "float", "fwd_bwd", "fwd_bwd", "inv_bwd", "deepcopy"]))
+                              "inverse", "sgd", "load", "double", "float", "fwd_bwd", "fwd_bwd", "inv_bwd", "deepcopy", "fwd_inplace", "inv_inplace"]))
     op = {"op": k}
-    if k in ("forward", "inverse", "fwd_bwd", "inv_bwd", "sgd", "load"):
+    if k in ("forward", "inverse", "fwd_bwd", "inv_bwd", "sgd", "load", "fwd_inplace", "inv_inplace"):
         op["seed"] = draw(st.integers(0, 1000))
     if k == "sgd":
         op["lr"] = draw(st.sampled_from([0.1, 0.5, 0.01]))
@@ -68,7 +68,7 @@ def _phase(draw):
             c2 = draw(st.sampled_from(["cache_on", "cache_off", "eval", "train"]))
             ops.append({"op": c2})
     for _ in range(draw(st.integers(0, 2))):
-        ops.append({"op": draw(st.sampled_from(["forward", "inverse", "forward", "fwd_bwd", "inv_bwd"])), "seed": draw(st.integers(0, 1000))})
+        ops.append({"op": draw(st.sampled_from(["forward", "inverse", "forward", "fwd_bwd", "inv_bwd", "fwd_inplace", "inv_inplace"])), "seed": draw(st.integers(0, 1000))})
     return ops
 
 
@@ -125,7 +125,9 @@ def _perturb(m, seed, scale=0.4):
 def _inputs(case, seed, dtype):
     g = torch.Generator().manual_seed(seed)
     f = case["features"]
-    shape = [3, f, 2, 2] if case["cls"] == "conv" else [3, f]
+    rows = [3, 1, 5][seed % 3]                              # also single-row batches
+    hw = [[2, 2], [1, 3], [4, 7], [3, 1]][seed % 4]         # also non-square images
+    shape = [rows, f] + hw if case["cls"] == "conv" else [rows, f]
     return torch.randn(shape, generator=g, dtype=torch.float64).to(dtype)
 
 
@@ -189,8 +191,8 @@ def run_case(case):
                     model["dtype"] = dt
                 elif k == "deepcopy":
                     subj = copy.deepcopy(subj)
-                elif k in ("forward", "inverse", "fwd_bwd", "inv_bwd"):
-                    inv = k in ("inverse", "inv_bwd")
+                elif k in ("forward", "inverse", "fwd_bwd", "inv_bwd", "fwd_inplace", "inv_inplace"):
+                    inv = k in ("inverse", "inv_bwd", "inv_inplace")
                     x = _inputs(case, op["seed"], model["dtype"])
                     tw = twin_of()
                     tol = (1e-10 if model["dtype"] == torch.float64 else 2e-5)
@@ -217,6 +219,14 @@ def run_case(case):
                                      "(log-det); history=%s" % (step, k, e1, e2, hist), measured=max(e1, e2), tol=tol * kap,
                                      history=[h for h in hist if h not in ("forward", "inverse")][-6:])
                             return res
+                        if k.endswith("inplace"):
+                            # results belong to the caller: accumulating into them in place (as coupling layers do with the log-det
+                            # of their unconditional transform) must work as on the uncached transform and must not reach the cache
+                            with torch.no_grad():
+                                for t_ in (ls, lt):
+                                    t_ += 1.0
+                                for t_ in (ys, yt):
+                                    t_.mul_(2.0)
                         if k.endswith("bwd"):
                             ys.sum().backward()
                             yt.sum().backward()
@@ -237,11 +247,15 @@ def run_case(case):
                 ok_on_twin = True
                 try:
                     tw = twin_of()
-                    if k in ("forward", "inverse", "fwd_bwd", "inv_bwd"):
+                    if k in ("forward", "inverse", "fwd_bwd", "inv_bwd", "fwd_inplace", "inv_inplace"):
                         x = _inputs(case, op["seed"], model["dtype"])
                         for rep in range(2 if k.endswith("bwd") else 1):
                             xt = x.clone().requires_grad_(k.endswith("bwd"))
-                            yt, _ = (tw.inverse(xt) if k in ("inverse", "inv_bwd") else tw(xt))
+                            yt, lt_ = (tw.inverse(xt) if k in ("inverse", "inv_bwd", "inv_inplace") else tw(xt))
+                            if k.endswith("inplace"):
+                                with torch.no_grad():
+                                    lt_ += 1.0
+                                    yt.mul_(2.0)
                             if k.endswith("bwd"):
                                 yt.sum().backward()
                 except Exception:
